@@ -598,6 +598,25 @@ def gen_harness(model, types, header_path, ws):
     CHECK(buf_iter_next(&it, &out2) != 0, "buffer iterator: ends after the last item (also when the buffer is empty)");
     CHECK(buf_iter_next(&it, &out2) != 0 && out2 == 0x5A5A5A5A, "buffer iterator: stays ended, writes nothing");
 }
+/* the BUF_ITER_SPEC macro over an untyped (byte) buffer: the element stride is the ELEMENT type's size */
+typedef struct CIterator_hu32 { void *iter; int32_t (*func)(void *, uint32_t *out); } CIterator_hu32;
+static void test_helper_buf_iter_macro(void) {
+    ND(uint32_t, hm_b0); ND(uint32_t, hm_b1); ND(uint32_t, hm_b2);
+    uint32_t typed[3] = { hm_b0, hm_b1, hm_b2 };
+    const uint8_t *raw = (const uint8_t *) typed;
+    BUF_ITER_SPEC(hu32, uint32_t, hit, raw, 3);
+    /* (the stored function is the helper cast to the iterator's signature; it is invoked here under its own type -
+       CBMC does not model a call through the differently typed pointer) */
+    CHECK(hit.iter == (void *) &hit_base && hit.func != 0, "buffer iterator macro: state and function are set");
+    CHECK(hit_base.sz_elem == sizeof(uint32_t), "buffer iterator macro: the stride is the element type's size");
+    for (size_t k = 0; k < 3; k++) {
+        uint32_t out = 0;
+        CHECK(buf_iter_next(&hit_base, &out) == 0, "buffer iterator macro: 0 for an item");
+        CHECK(out == typed[k], "buffer iterator macro: whole elements at the element type's stride");
+    }
+    uint32_t out3 = 0;
+    CHECK(buf_iter_next(&hit_base, &out3) != 0, "buffer iterator macro: ends after the last item");
+}
 static void test_helper_collect_static(void) {
     uint32_t store[3] = { 0, 0, 0 };
     ND(size_t, hc_cap); ASSUME(hc_cap <= 3);
@@ -609,7 +628,7 @@ static void test_helper_collect_static(void) {
         bool more = cb_collect_static_base(&cb, sizeof(uint32_t), &v);
         fed++;
         CHECK(more == (cb.size < hc_cap), "static collect: continues exactly while there is room");
-        if (!more) break;
+        /* a producer may offer again after "stop" (a second feed into the same collector): nothing is written then */
     }
     CHECK(cb.size == (fed < hc_cap ? fed : hc_cap), "static collect: stores min(offered, capacity) items");
     for (size_t k = 0; k < cb.size; k++) CHECK(store[k] == 100 + k, "static collect: items in order");
@@ -631,6 +650,7 @@ static void test_helper_collect_static(void) {
 """)
         tests.append(("test_helper_collect_dynamic", "helper cb_collect_dynamic_base", "cb_collect_dynamic_base"))
         tests.append(("test_helper_buf_iter", "helper buf_iter_next", "buf_iter_next"))
+        tests.append(("test_helper_buf_iter_macro", "helper BUF_ITER_SPEC", "BUF_ITER_SPEC"))
         tests.append(("test_helper_collect_static", "helper cb_collect_static_base", "cb_collect_static_base"))
     o.append("int main(void) {\n    ND(unsigned, which);\n    switch (which) {\n")
     for i, (tn, desc, wn) in enumerate(tests):
@@ -706,7 +726,7 @@ def helper_checks(which="helpers"):
     open(cpath, "w").write(hsrc)
     res = run_cbmc(cpath, mdir)
     if which == "helpers":
-        helper = [f for f in res["failed"] if f["desc"].startswith(("buffer iterator", "static collect", "dynamic collect")) or "buf_iter_next" in f["id"]
+        helper = [f for f in res["failed"] if f["desc"].startswith(("buffer iterator", "static collect", "dynamic collect")) or "test_helper" in f["id"] or "memcpy" in f["id"] or "buf_iter_next" in f["id"]
                   or "cb_collect" in f["id"]]
     else:   # "drop": the *_drop helpers and the ctx_arc_clone / ctx_arc_drop / cont_box_drop snippets they use
         helper = [f for f in res["failed"] if "drop helper" in f["desc"]]
